@@ -75,6 +75,9 @@ pub struct DInc {
     /// a third party overwrites a magic word of the segment file right before this incarnation
     /// starts (clients may have the file mapped)
     pub damage_before: bool,
+    /// the segment file is removed right before this incarnation starts (the daemon creates a
+    /// new one; clients that had the old one mapped keep it)
+    pub delete_before: bool,
 }
 
 #[derive(Clone, Debug)]
@@ -132,7 +135,7 @@ impl BCfg {
             "start_mono_ns": self.start_mono_ns, "t0_ns": self.t0_ns, "horizon_ns": self.horizon_ns, "weak": self.weak, "stale_ppm": self.stale_ppm,
             "switch_ppm": self.switch_ppm, "step_cost_ns": self.step_cost_ns, "delay_ppm": self.delay_ppm, "clock_lag_ppm": self.clock_lag_ppm,
             "clock_lag_max_ns": self.clock_lag_max_ns, "clock_read_cost_ns": self.clock_read_cost_ns, "clock_fail_ppm": self.clock_fail_ppm, "phc": self.phc, "phc_name": self.phc_name, "script": self.script, "tight_pct": self.tight_pct,
-            "daemon": self.daemon.iter().map(|d| json!({"kill_at": d.kill_at, "panic_at": d.panic_at, "io_err": d.io_err.map(|(a, b)| vec![a, b]), "restart_delay_ns": d.restart_delay_ns, "damage_before": d.damage_before})).collect::<Vec<_>>(),
+            "daemon": self.daemon.iter().map(|d| json!({"kill_at": d.kill_at, "panic_at": d.panic_at, "io_err": d.io_err.map(|(a, b)| vec![a, b]), "restart_delay_ns": d.restart_delay_ns, "damage_before": d.damage_before, "delete_before": d.delete_before})).collect::<Vec<_>>(),
             "init_file": crate::world_a::corrupt_to_json(&self.init_file),
             "clients": self.clients.iter().map(|c| json!({"kind": c.kind, "calls": c.calls, "threshold_pct": c.threshold_pct, "start_ns": c.start_ns})).collect::<Vec<_>>(),
             "synthetic_cases": self.synthetic_cases, "pairs": self.pairs, "leap_base": self.leap_base, "hash_seed": self.hash_seed, "max_steps": self.max_steps,
@@ -167,7 +170,7 @@ impl BCfg {
                 .as_array()
                 .map(|a| {
                     a.iter()
-                        .map(|d| DInc { kill_at: opt_u(&d["kill_at"]), panic_at: opt_u(&d["panic_at"]), io_err: d["io_err"].as_array().map(|p| (u(&p[0]) as u32, u(&p[1]) as u32)), restart_delay_ns: i(&d["restart_delay_ns"]), damage_before: d["damage_before"].as_bool().unwrap_or(false) })
+                        .map(|d| DInc { kill_at: opt_u(&d["kill_at"]), panic_at: opt_u(&d["panic_at"]), io_err: d["io_err"].as_array().map(|p| (u(&p[0]) as u32, u(&p[1]) as u32)), restart_delay_ns: i(&d["restart_delay_ns"]), damage_before: d["damage_before"].as_bool().unwrap_or(false), delete_before: d["delete_before"].as_bool().unwrap_or(false) })
                         .collect()
                 })
                 .unwrap_or_default(),
@@ -216,7 +219,7 @@ pub fn gen_config(profile: Profile, run_seed: u64, index: u64) -> BCfg {
         phc_name: r.below(8) as u8,
         script: 1,
         tight_pct: 30,
-        daemon: vec![DInc { kill_at: None, panic_at: None, io_err: None, restart_delay_ns: r.range(0, 30) * SEC, damage_before: false }],
+        daemon: vec![DInc { kill_at: None, panic_at: None, io_err: None, restart_delay_ns: r.range(0, 30) * SEC, damage_before: false, delete_before: false }],
         init_file: Corrupt::None,
         clients: Vec::new(),
         synthetic_cases: 0,
@@ -258,7 +261,7 @@ pub fn gen_config(profile: Profile, run_seed: u64, index: u64) -> BCfg {
                 // ~60 scheduling points per poll-second
                 let kill = if r.chance(75) { Some(r.below(60 * 25) as u32) } else { None };
                 let damage = !c.daemon.is_empty() && r.chance(25);
-                c.daemon.push(DInc { kill_at: kill, panic_at: None, io_err: None, restart_delay_ns: r.range(0, 12) * SEC, damage_before: damage });
+                c.daemon.push(DInc { kill_at: kill, panic_at: None, io_err: None, restart_delay_ns: r.range(0, 12) * SEC, damage_before: damage, delete_before: false });
             }
             c.horizon_ns = r.range(40, 120) * SEC;
         }
@@ -287,7 +290,7 @@ pub fn gen_config(profile: Profile, run_seed: u64, index: u64) -> BCfg {
             c.daemon.clear();
             for _ in 0..n {
                 let kill = if r.chance(50) { Some(r.below(60 * 20) as u32) } else { None };
-                c.daemon.push(DInc { kill_at: kill, panic_at: None, io_err: None, restart_delay_ns: r.range(0, 8) * SEC, damage_before: false });
+                c.daemon.push(DInc { kill_at: kill, panic_at: None, io_err: None, restart_delay_ns: r.range(0, 8) * SEC, damage_before: false, delete_before: false });
             }
         }
         Profile::Workerdeath => {
@@ -296,7 +299,7 @@ pub fn gen_config(profile: Profile, run_seed: u64, index: u64) -> BCfg {
             let n = r.range(1, 3) as usize;
             c.daemon.clear();
             for _ in 0..n {
-                let mut d = DInc { kill_at: None, panic_at: None, io_err: None, restart_delay_ns: r.range(0, 10) * SEC, damage_before: false };
+                let mut d = DInc { kill_at: None, panic_at: None, io_err: None, restart_delay_ns: r.range(0, 10) * SEC, damage_before: false, delete_before: false };
                 match r.below(10) {
                     // start-up failures: fault points 0..3 are writer:start, poller:start, writer:ready, first loops
                     0 | 1 => d.panic_at = Some(r.below(4) as u32),
@@ -391,8 +394,8 @@ pub fn gen_config(profile: Profile, run_seed: u64, index: u64) -> BCfg {
                 // a daemon killed at an arbitrary point (inside an update, one time in five) and
                 // restarted some seconds later
                 c.daemon = vec![
-                    DInc { kill_at: Some(r.below(60 * 20) as u32), panic_at: None, io_err: None, restart_delay_ns: 0, damage_before: false },
-                    DInc { kill_at: None, panic_at: None, io_err: None, restart_delay_ns: r.range(0, 12) * SEC, damage_before: false },
+                    DInc { kill_at: Some(r.below(60 * 20) as u32), panic_at: None, io_err: None, restart_delay_ns: 0, damage_before: false, delete_before: false },
+                    DInc { kill_at: None, panic_at: None, io_err: None, restart_delay_ns: r.range(0, 12) * SEC, damage_before: false, delete_before: r.chance(40) },
                 ];
             }
             if matches!(c.init_file, Corrupt::Dir) {
